@@ -11,6 +11,11 @@ each a rule over the memoisation sites (get_or_create / make_key) of the service
  g  identity-keyed hand-rolled caches keep their referent alive
  h  reload rebuilds services: every concrete _HitenBase subclass's __setstate__ calls _setup_services
 Not applicable (declared): that a save/load round trip preserves all observable state (reflective pickling).
+
+b (added)  sibling rule: an attribute other keys of the class contain must be keyed / invalidated wherever a factory reads it
+e (added)  keyed (partial) resets must cover every dependent tag; recorded slots (self.x = get_or_create(...)) are cleared with the cache
+h (added)  reset() overrides write nothing but the cache (the load path calls reset() after restoring state)
+i  hand-rolled caches anywhere in the package: key completeness (hv.memo)
 """
 from __future__ import annotations
 
